@@ -314,7 +314,7 @@ func nontrivial(c Case) bool {
 func TestC08(t *testing.T) {
 	defer st.Emit()
 	setup(t)
-	stat.Check(t, st, "delivery", stat.N(45, 6000), draw, func(c Case) *stat.Failure {
+	stat.Check(t, st, "delivery", stat.N(45, 1400), draw, func(c Case) *stat.Failure {
 		cls := []string{fmt.Sprintf("proxies-%d", c.NProxies)}
 		if c.SharedName {
 			cls = append(cls, "proxies-share-one-servant-name")
